@@ -293,10 +293,19 @@ func gen(kind, keys string) func(t *rapid.T) Case {
 		if keys == "string" {
 			hi = len(strKeys) - 1
 		}
+		long := keys == "int" && rapid.IntRange(0, 7).Draw(t, "long") == 0
+		if long {
+			hi = 70 // dozens of live keys, long histories, variadics of up to 12
+		}
 		if kind == "set" {
 			c.Init = rapid.SliceOfN(rapid.IntRange(0, hi), 0, 4).Draw(t, "init")
 		}
 		n := rapid.IntRange(0, 30).Draw(t, "n")
+		maxVar := 4
+		if long {
+			n = rapid.IntRange(40, 160).Draw(t, "nlong")
+			maxVar = 12
+		}
 		v := 1
 		for i := 0; i < n; i++ {
 			switch dom.Weighted(t, "op", 1, 40, 15, 30, 1) {
@@ -305,9 +314,9 @@ func gen(kind, keys string) func(t *rapid.T) Case {
 				c.Ops = append(c.Ops, Op{O: "put", K: rapid.IntRange(0, hi).Draw(t, "k"), V: v})
 				v++
 			case 2:
-				c.Ops = append(c.Ops, Op{O: "add", Ks: rapid.SliceOfN(rapid.IntRange(0, hi), 0, 4).Draw(t, "ks")})
+				c.Ops = append(c.Ops, Op{O: "add", Ks: rapid.SliceOfN(rapid.IntRange(0, hi), 0, maxVar).Draw(t, "ks")})
 			case 3:
-				c.Ops = append(c.Ops, Op{O: "remove", Ks: rapid.SliceOfN(rapid.IntRange(0, hi), 1, 2).Draw(t, "ks")})
+				c.Ops = append(c.Ops, Op{O: "remove", Ks: rapid.SliceOfN(rapid.IntRange(0, hi), 1, max(2, maxVar/2)).Draw(t, "ks")})
 			case 4:
 				c.Ops = append(c.Ops, Op{O: "clear"})
 			}
